@@ -1,0 +1,38 @@
+//go:build verif
+
+package checker
+
+// Machine-checked contract for the rollback of a rejected REPL input (see /verif/DESIGN.md, C27).
+// This file contains no declarations: it only carries specification comments that the elkvc
+// verification-condition generator reads.
+
+/*@
+// CheckSource copies the global environment, the local environments and the constant and method
+// scopes before it checks an input.  When the input is rejected (the diagnostic list holds a
+// failure) every one of the four is replaced by the copy taken at entry — so that nothing the
+// rejected input declared survives — and when it is accepted none of them is replaced.  The
+// statement is about the wiring: that the copies are deep enough is the business of
+// DeepCopyEnv and friends.
+// checking the program may do anything to the checker and the environment
+func (*Checker).CheckProgram
+  trusted
+  assigns everything
+
+func (*Checker).setRuntimeGlobalEnv
+  props C27
+  nosafety
+  partial
+  requires c != nil
+  assigns c.runtimeEnv, c.selfType, c.constantScopes, c.methodScopes, fresh
+  ensures env: c.runtimeEnv == newEnv
+
+func (*Checker).CheckSource
+  props C27
+  nosafety
+  partial
+  requires c != nil
+  cut before return#3: env: c.Errors.DiagnosticList.IsFailure() ==> c.runtimeEnv == envCopy
+  cut before return#3: locals: c.Errors.DiagnosticList.IsFailure() ==> c.localEnvs == localEnvsCopy
+  cut before return#3: consts: c.Errors.DiagnosticList.IsFailure() ==> c.constantScopes == constantScopesCopy
+  cut before return#3: methods: c.Errors.DiagnosticList.IsFailure() ==> c.methodScopes == methodScopesCopy
+@*/
